@@ -8,6 +8,7 @@ import BiscuitModel.Model.Authorizer
 import BiscuitModel.Model.Intern
 import BiscuitModel.Lemmas.Datalog
 import BiscuitModel.Lemmas.Authorizer
+import BiscuitModel.Props.C03
 import BiscuitModel.Props.C04
 import BiscuitModel.Props.C05
 import BiscuitModel.Props.C06
